@@ -86,7 +86,7 @@ AggOK(a) ==
     /\ a.outlen = ch.usize                                   \* stored uncompressed size is truthful
     /\ a.used = ch.csize                                     \* stored compressed size is truthful
     /\ LET copies == a.match + a.rep IN
-       /\ (copies + a.srep > 0) =>
+       /\ (copies > 0) =>                                     \* (short reps reuse rep0: already counted or the initial 1)
             /\ a.maxdist >= 1
             /\ a.maxdist <= dictSize                         \* no copy reaches farther back than the dictionary size
             /\ a.maxdist <= cavail + ch.usize - 1            \* ... nor before the start of the dictionary
